@@ -4,8 +4,10 @@
    lock_refs.go,iterator.go} that decides which locks a ByDuration gauge pays.
    Function by function, as written (including the stale values used by checkFinishDistribution,
    the owner-keyed distributionInfo, the hard-coded small-gauge filter and the per-epoch min-value cache).
-   Not modelled (out of scope of the first model): group gauges, NoLock (concentrated liquidity) gauges,
-   synthetic-lock gauges, the gauge-id-by-denom index, events, gas, telemetry.
+   External NoLock gauges on concentrated-liquidity pools are modelled minimally (creation, the per-epoch amount
+   floor(remaining / remaining epochs) handed to the pool through CreateIncentive, which rejects a zero amount).
+   Not modelled: group gauges, internal NoLock gauges, synthetic-lock gauges, the concentrated-liquidity side of
+   CreateIncentive (incentive records, emission rate, uptime), the gauge-id-by-denom index, events, gas, telemetry.
    The value lookup (protorev route + pool CalcOutAmtGivenIn) is injected per epoch as a table [tval].
    Units: times and durations are integer milliseconds; denominations, users and ids are integers.
    No proofs in this file. *)
@@ -119,7 +121,11 @@ Definition del_lock (tbl : list lock) (id : Z) : list lock := filter (fun l => n
 Record gauge := mkGauge {
   g_id : Z; g_perp : bool; g_denom : Z; g_dur : Z;
   g_coins : coins; g_dist : coins;
-  g_start : Z; g_n : Z; g_filled : Z }.
+  g_start : Z; g_n : Z; g_filled : Z;
+  g_pool : Z }.                 (* 0: ByDuration lock gauge; p > 0: external NoLock gauge on concentrated pool p *)
+
+(* the incentives address of concentrated pool p (never the module account, never a user) *)
+Definition pool_addr (p : Z) : Z := - (p + 1).
 
 (* types/gauge.go *)
 Definition is_upcoming_gauge (g : gauge) (t : Z) : bool := t <? g_start g.
@@ -188,7 +194,8 @@ Record config := mkCfg {
   cfg_base_denom : Z;           (* appparams.BaseCoinUnit: routes are checked against it at creation *)
   cfg_stake_denom : Z;          (* the denom exempted from the small-gauge filter *)
   cfg_lockable : list Z;        (* pool-incentives lockable durations *)
-  cfg_supplied : list Z }.      (* lockable denominations that have supply on chain *)
+  cfg_supplied : list Z;        (* lockable denominations that have supply on chain *)
+  cfg_clpools : list Z }.       (* the concentrated-liquidity pools that exist *)
 
 Record state := mkState {
   s_now : Z;
@@ -214,7 +221,28 @@ Definition create_gauge (cfg : config) (s : state) (owner : Z) (perp : bool) (de
   if negb (mem dur (cfg_lockable cfg)) then Err E_DURATION else
   if negb (mem denom (cfg_supplied cfg)) then Err E_NO_DENOM else
   let id := s_last_gauge s + 1 in
-  let g := mkGauge id perp denom dur c [] start n 0 in
+  let g := mkGauge id perp denom dur c [] start n 0 0 in
+  match bank_send (s_bank s) owner MODULE c with
+  | None => Err E_FUNDS
+  | Some b =>
+      match add_ref (s_up s) start id with
+      | None => Err E_EPOCH
+      | Some up =>
+          Ok (mkState (s_now s) (set_gauge (s_gauges s) g) id up (s_act s) (s_fin s)
+                      (s_locks s) (s_last_lock s) b (s_routable s))
+      end
+  end.
+
+(* gauge.go CreateGauge, external NoLock gauge (empty denom, uptime = the authorized 1 ns) on pool [pool];
+   its distribute-to denom "no-lock/e/<pool>" is represented by the negative number -pool *)
+Definition create_nolock_gauge (cfg : config) (s : state) (owner : Z) (perp : bool) (pool : Z)
+    (c : coins) (start n : Z) : res state :=
+  if (n =? 0) && negb perp then Err E_ZERO_EPOCHS else
+  if negb (distributable cfg s c) then Err E_NO_ROUTE else
+  if pool <=? 0 then Err E_OTHER else                            (* "'no lock' type gauges must have a pool id" *)
+  if negb (mem pool (cfg_clpools cfg)) then Err E_OTHER else     (* pool not found / not concentrated *)
+  let id := s_last_gauge s + 1 in
+  let g := mkGauge id perp (- pool) 0 c [] start n 0 pool in
   match bank_send (s_bank s) owner MODULE c with
   | None => Err E_FUNDS
   | Some b =>
@@ -234,7 +262,7 @@ Definition add_to_gauge (cfg : config) (s : state) (owner : Z) (c : coins) (id :
   | Some g =>
       if is_finished_gauge g (s_now s) then Err E_FINISHED else
       let g' := mkGauge (g_id g) (g_perp g) (g_denom g) (g_dur g) (coins_add (g_coins g) c) (g_dist g)
-                        (g_start g) (g_n g) (g_filled g) in
+                        (g_start g) (g_n g) (g_filled g) (g_pool g) in
       match bank_send (s_bank s) owner MODULE c with
       | None => Err E_FUNDS
       | Some b =>
@@ -309,7 +337,7 @@ Fixpoint locks_loop (cfg : config) (thr : Z -> tval) (den : Z) (remain : coins) 
 (* updateGaugePostDistribute *)
 Definition post_update (g : gauge) (newly : coins) : gauge :=
   mkGauge (g_id g) (g_perp g) (g_denom g) (g_dur g) (g_coins g) (coins_add (g_dist g) newly)
-          (g_start g) (g_n g) (g_filled g + 1).
+          (g_start g) (g_n g) (g_filled g + 1) (g_pool g).
 
 Definition two64 : Z := 18446744073709551616.
 Definition to_int64 (x : Z) : Z := if x <? 9223372036854775808 then x else x - two64.
@@ -326,7 +354,20 @@ Definition is_small_gauge (cfg : config) (remain : coins) : bool :=
 Definition sum_locks (ls : list lock) : Z := fold_left (fun a l => a + l_amt l) ls 0.
 Definition max_int_bits : Z := 256.
 
-(* distributeInternal for a lock gauge; result: the gauge to write (None = no write), dinfo, cache *)
+(* the NoLock branch of distributeInternal: for every remaining coin the per-epoch amount
+   remainCoin.Amount.Quo(remainEpochs) goes to clk.CreateIncentive, which rejects a zero coin (its error is returned) *)
+Fixpoint nolock_coins (re : Z) (remain : coins) (acc : coins) : option coins :=
+  match remain with
+  | [] => Some acc
+  | (d, R) :: r =>
+      let amt := Z.quot R re in
+      if amt <=? 0 then None else nolock_coins re r (coins_add acc [(d, amt)])
+  end.
+
+(* distributeInternal; result: the gauge to write (None = no write), dinfo, cache.
+   CreateIncentive moves the coins from the module account to the pool's incentives address at once; the model books
+   that transfer in the distribution info under the pool's address and applies it with the other sends (the epoch end
+   is atomic, so the two are indistinguishable; the module balance always covers it, see C09_module_covers_remainder) *)
 Definition distribute_internal (cfg : config) (thr : Z -> tval) (g : gauge) (ls : list lock)
     (di : dinfo) (cache : vcache) : res (option gauge * dinfo * vcache) :=
   match coins_sub (g_coins g) (g_dist g) with
@@ -334,6 +375,15 @@ Definition distribute_internal (cfg : config) (thr : Z -> tval) (g : gauge) (ls 
   | Some remain =>
       let re := remain_epochs g in
       if re =? 0 then Err E_EPOCH else
+      if negb (g_pool g =? 0) then
+        match nolock_coins re remain [] with
+        | None => Err E_EPOCH
+        | Some total =>
+            Ok (Some (post_update g total),
+                (if is_empty total then di else add_lock_rewards di (pool_addr (g_pool g)) (pool_addr (g_pool g)) total),
+                cache)
+        end
+      else
       if is_empty ls then Ok (None, di, cache) else
       if is_empty remain then Ok (Some (post_update g []), di, cache) else
       if is_small_gauge cfg remain then Ok (Some (post_update g []), di, cache) else
@@ -352,6 +402,7 @@ Fixpoint lc_get (c : lcache) (d : Z) : option (list lock) :=
 
 (* getDistributeToBaseLocks + getLocksToDistributionWithMaxDuration + FilterLocksByMinDuration *)
 Definition base_locks (tbl : list lock) (g : gauge) (lc : lcache) : list lock * lcache :=
+  if negb (g_pool g =? 0) then ([], lc) else      (* a NoLock query condition selects no locks *)
   if is_empty (g_coins g) then ([], lc) else
   let '(all, lc') :=
     match lc_get lc (g_denom g) with
@@ -549,7 +600,8 @@ Inductive op :=
 | ORecv (id to : Z)
 | ORoute (r : Z) (on : bool)       (* protorev: register a route for r / delete all routes of the base denom *)
 | OTime (dt : Z)
-| OEpoch (dt : Z) (thr : list tval).
+| OEpoch (dt : Z) (thr : list tval)
+| ONGauge (u : Z) (perp : bool) (pool : Z) (raw : list (Z * Z)) (start n : Z).   (* external NoLock gauge *)
 
 (* sdk.NewCoin panics on a negative amount; the epoch count is a uint64; users are the non-negative
    addresses (the module account signs nothing) *)
@@ -585,6 +637,10 @@ Definition handle (cfg : config) (s : state) (o : op) : res (state * Z) :=
       | Ok s' => Ok (s', 0)
       | Err e => Err e
       end
+  | ONGauge u perp pool raw start n =>
+      if negb (valid_raw raw) || (n <? 0) || (two64 <=? n) || (u <? 0) then Err E_OTHER else
+      match create_nolock_gauge cfg s u perp pool (mk_coins raw) start n with
+      | Ok s' => Ok (s', s_last_gauge s') | Err e => Err e end
   end.
 
 (* baseapp atomicity (DESIGN 1.5): a failing handler leaves the state unchanged - except that the block
